@@ -1006,6 +1006,9 @@ func TestCheck(t *testing.T) {
 		"(f) all distinct requeue-cycle histories of (c) (retry.max 1; thorough also 2) as one message each in ONE store that other traffic goes through (1500 messages per placement, every 8th dead-lettered; thorough also 1100 and 4200): "+
 		"store variant x operator action that starts the new cycle {requeue-dead, requeue-messages, requeue-by-filter, cancel+resume} x placement of the other traffic {before, with, while parked in the DLQ, right after the restart; thorough: every non-empty subset} x {same target, second target of the route, other route}; "+
 		"(g) every ordered pair of 8 deliver-block kinds {2 full blocks, max only, base+cap only, cap only, jitter only, timeout only, empty} (triples: 4 kinds, thorough all 8) x defaults.deliver {written, partial, none} x {one route, one route per target} x 6 answer scripts (always 503 at both jitter extremes, 429-408-200, hang, 200 after 300ms/1s/5s), one message per target, each judged against its own written settings. "+
+		"(h) redirects below the real HTTPDeliverer + real http.Client (in-memory network of several hosts, table resolver, egress policy compiled from written text): 10 egress policies {no rule, deny host, deny *.domain, deny cidr, allow hosts, allow cidr, https_only, dns_rebind_protection, nothing written = documented defaults, allow+deny mixed} x redirects {on, off; not written for two} x retry.max x attempt 1..max+2 x every redirect chain of the alphabet "+
+		"{direct answer; 301/302/303/307/308 to an allowed place that answers 2xx/5xx/4xx/reset (thorough: 10 answers), to the same host (relative Location), to a place each kind of rule of the policy refuses, without / with an unusable Location, a second hop allowed->refused and allowed->allowed->answer, a loop; 300/304/305/399 with a Location}, "+
+		"plus every sequence of retry.max+2 attempts (+1 with a DLQ requeue) over a 7-10 chain alphabet for deny-host / defaults (thorough: + rebind, more store variants); "+
 		"distinct_nontrivial counts (part, input class, attempt<=max?, observed settlement), (part, jitter, capped?, position in the delay window) and (part, store, sends, terminal state) classes")
 	r.Assume("lease mutations on the store succeed (statement) and leases do not expire during a delivery (lease TTL >= 30s, target timeout 1s); a history with a failed lease mutation is counted and not judged; a store whose batch extension fails is covered because the per-action fallback succeeds")
 	r.Assume("the delivery target is an in-memory Deliverer (part a, b) or the real HTTPDeliverer with the compiled egress policy over an in-memory RoundTripper (parts a, c, d); no sockets, DNS or TLS; policy denials in parts c/d come from the real egress check (deny rule)")
@@ -1014,6 +1017,8 @@ func TestCheck(t *testing.T) {
 	r.Assume("Postgres backend not executed; with several workers the interleaving inside a bubble is the Go scheduler's (the per-message oracle is schedule independent), no controlled preemption search; SQLite long-poll shortened to 250ms in the harness-built dispatcher")
 	r.Assume("retry.max, base, cap, jitter and timeout of the oracle are read from the configuration text, not from the compiled config: the real Parse/Compile/buildDispatchRoutes mapping is inside the checked path; a setting a deliver block does not write is the one of the written defaults.deliver block, else the documented built-in default (max 8, base 2s, cap 2m, jitter 0.2, timeout 10s)")
 	r.Assume("part (g): an answer that arrives later than the target's own timeout counts as a timeout (retryable) whatever its status; answer delays {300ms, 1s, 5s} never coincide with a timeout of the grid")
+	r.Assume("part (h): which places a policy refuses is written by hand next to the rule (redirPolicy.Refused), never computed from the policy; under redirects on a 301/302/303/307/308 whose Location the policy refuses must end dead policy_denied by that attempt (statement + docs: every hop is checked like the target) and the refused place is never requested; " +
+		"a 3xx that is not followed (redirects off, no/unusable Location, a status that is no redirect instruction, a loop cut off by the client) is judged as the statement judges a 3xx: never success, retried only while attempt <= retry.max, dead only with a reason - whether an ALLOWED hop is followed at all, with which method and body, and where a loop is cut (observed: 10 requests) is not C06's business; no TLS: https places exist only as URLs of the in-memory network")
 	r.Assume("part (f): the other traffic is not judged message by message, only that all of it ends delivered or dead-lettered; whether the store's internal thresholds were actually crossed is not observable from outside (the sizes are chosen above the memory store's 1024-entry order-list compaction threshold); with two workers the interleaving of judged and other messages is the Go scheduler's")
 	r.Finish()
 }
